@@ -147,7 +147,13 @@ def gen_args(rng):
     # (sub: the same data held in OrderedDict / defaultdict / namedtuple / user subclasses of list, tuple, dict)
     if rng.random() < 0.5:
         return [sub(gen.json_value(rng, 3, 3, falsy_bias=0.25)) for _ in range(rng.randint(0, 4))], {}
-    return [], {gen.rand_key(rng): sub(gen.json_value(rng, 3, 3, falsy_bias=0.25)) for _ in range(rng.randint(0, 4))}
+    # keyword names that the client's own call machinery uses as parameter / attribute names are over-weighted
+    key = (lambda: rng.choice(KW_NAMES)) if rng.random() < 0.15 else (lambda: gen.rand_key(rng))
+    return [], {key(): sub(gen.json_value(rng, 3, 3, falsy_bias=0.25)) for _ in range(rng.randint(0, 4))}
+
+
+KW_NAMES = ["self", "cls", "args", "kwargs", "name", "attr", "method", "params", "notify", "config", "rpcid",
+            "request", "version", "encoding", "id", "jsonrpc", "result", "error", "send", "__name__"]
 
 
 def gen_planned(rng):
@@ -273,7 +279,13 @@ def multicall(ctx, c, rng):
             m = getattr(target, segs[0])
             for seg in segs[1:]:
                 m = getattr(m, seg)
-        m(*j["args"], **j["kwargs"])
+        try:
+            m(*j["args"], **j["kwargs"])
+        except BaseException as ex:  # noqa
+            ctx.violate("multicall:queuing-a-call-raised-%s" % type(ex).__name__,
+                        {"cell": list(c.cell), "style": "multicall", "jobs": [j]}, {"raised": ex})
+            c.mc = None
+            return
         c.planned.append(j["planned"])
     mark = fx.log.mark()
     hmark = (len(c.history.requests), len(c.history.responses))
